@@ -32,7 +32,7 @@ RULE = ("seeded generator over trunk space (1-3 variables, total dim 1-5, declar
         "depth 1-4/width 1-32 (square and ragged)/7 activations incl. adaptive x optional Sequential(NormalizationLayer, "
         "trunk) x FCBranchNet | ConvBranchNet1D (1-2 conv layers, kernel 1/3/5) x function output dim 1-2 x 2-12 "
         "discretisation points x output space of 1-2 variables with total dim 1-3 x 1-12 neurons per component x 1-6 "
-        "functions x 1-40 locations x trunk input rank 2|3 x 5 requires_grad patterns.  A case is non-trivial when the "
+        "functions x 1-40 locations x trunk input rank 2|3 x 6 requires_grad patterns (incl. biases only).  A case is non-trivial when the "
         "deciding comparison of its kind was made (twin: derivatives and parameter gradients of both nets; forms: at "
         "least three input forms); distinct = (kind, branch type, output dim, K class, #functions class, trunk rank, "
         "normalisation, grouped flags); history cases: (branch type, output dim, trunk rank, fast|plain, operation pattern).")
@@ -59,7 +59,7 @@ ASSUMPTIONS = [
 ]
 CASE_TIMEOUT = 180
 
-MODES = ["full", "theta_only", "x_only", "weights_only", "first_layer_frozen"]
+MODES = ["full", "theta_only", "x_only", "weights_only", "first_layer_frozen", "biases_only"]
 
 
 # ---------------------------------------------------------------------------------------------
@@ -303,6 +303,8 @@ def _set_mode(net, mode):
             req = False
         elif mode == "weights_only" and k.endswith("bias"):
             req = False
+        elif mode == "biases_only" and not k.endswith("bias"):
+            req = False             # bias-only fine-tuning: the gradient of a bias must not depend on its weight being trainable
         elif mode == "first_layer_frozen" and "trunk" in k and ".sequential.0." in k:
             req = False
         p.requires_grad_(req)
